@@ -10,7 +10,10 @@ verus! {
    SUB(from=HashMap<ClientID, VecDeque<Block>, BuildHasherDefault<ClientHasher>>;;to=HashMap<ClientID, Vec<Block>>)
    SUB(from=HashMap<ClientID, u32, BuildHasherDefault<ClientHasher>>;;to=HashMap<ClientID, u32>)
    SUB(from=for (&client, blocks) in;;to=for (client, blocks) in)
-   SUB(from=sv.set_max(client,;;to=sv.set_max(*client,)
+   SUB(from=(client, last_clock);;to=(*client, last_clock))
+   SUB(from=(client, id.clock);;to=(*client, id.clock))
+   SUB(from=x.as_ref().into();;to=vx_item_ptr(x))
+   SUB(from=slice.encode(encoder);;to=E::encode_item_slice(&slice, encoder))
 @*/
 
 pub mod vx_base {
@@ -170,6 +173,10 @@ pub open spec fn list_contiguous(s: Seq<BlockView>) -> bool {
     forall|i: int, j: int| 0 <= i && j == i + 1 && j < s.len() ==> end_of(#[trigger] s[i]) == (#[trigger] s[j]).clock
 }
 
+pub open spec fn upd_ok(u: Map<ClientID, Vec<Block>>) -> bool {
+    forall|c: ClientID| #[trigger] u.contains_key(c) ==> list_ok(views(u[c]@))
+}
+
 pub open spec fn upd_wf(u: Map<ClientID, Vec<Block>>) -> bool {
     forall|c: ClientID| #[trigger] u.contains_key(c) ==> list_ok(views(u[c]@)) && list_contiguous(views(u[c]@))
 }
@@ -325,12 +332,157 @@ impl Block {
     @*/
 }
 
+
+// ---------------------------------------------------------------------------------------------
+// the encoder, abstracted to the sequence of tokens written so far (same abstraction as unit header)
+// ---------------------------------------------------------------------------------------------
+pub enum Tok {
+    Info(u8),
+    Len(u32),
+    Var(int),
+    Client(ClientID),
+    /// any token written by `ItemSlice::encode` / `IdSet::encode` (opaque here)
+    Other(int),
+}
+
+pub trait VarInt: Sized + Copy {
+    spec fn vx_val(&self) -> int;
+}
+
+impl VarInt for u32 {
+    open spec fn vx_val(&self) -> int { *self as int }
+}
+
+impl VarInt for usize {
+    open spec fn vx_val(&self) -> int { *self as int }
+}
+
+pub uninterp spec fn item_slice_toks(item: Item, start: u32, end: u32) -> Seq<Tok>;
+
+pub uninterp spec fn id_set_toks(ds: IdSet) -> Seq<Tok>;
+
+pub uninterp spec fn item_parent_known(item: Item) -> bool;
+
+pub struct ItemSlice<'a> {
+    pub ptr: &'a Item,
+    pub start: u32,
+    pub end: u32,
+}
+
+impl<'a> ItemSlice<'a> {
+    pub open spec fn wf(&self) -> bool {
+        &&& self.ptr.len >= 1
+        &&& self.ptr.id.clock + self.ptr.len <= u32::MAX
+        &&& self.start <= self.end
+        &&& self.end < self.ptr.len
+    }
+
+    /*@extract yrs/src/slice.rs | impl ItemSlice | fn new | label=ItemSlice.new | rules=SUB(from=ptr: ItemPtr;;to=ptr: &'a Item)
+    @ret r
+    @sig
+        requires start <= end,
+        ensures r.ptr == ptr, r.start == start, r.end == end,
+    @*/
+}
+
+pub fn vx_item_ptr<'a>(x: &'a Box<Item>) -> (r: &'a Item)
+    ensures *r == **x,
+{
+    &**x
+}
+
+pub trait Kernels: Sized {
+    spec fn log(&self) -> Seq<Tok>;
+
+    fn encode_item_slice(slice: &ItemSlice<'_>, encoder: &mut Self)
+        requires
+            slice.wf(),
+            slice.start == 0 ==> item_parent_known(*slice.ptr),
+        ensures
+            final(encoder).log() == old(encoder).log() + item_slice_toks(*slice.ptr, slice.start, slice.end),
+    ;
+
+    fn encode_id_set(ds: &IdSet, encoder: &mut Self)
+        ensures
+            final(encoder).log() == old(encoder).log() + id_set_toks(*ds),
+    ;
+}
+
+pub trait Encoder: Sized + Kernels {
+    /*@extract yrs/src/updates/encoder.rs | trait Encoder: Write | fn write_client
+    @sig
+        ensures final(self).log() == old(self).log().push(Tok::Client(client)),
+    @*/
+
+    /*@extract yrs/src/updates/encoder.rs | trait Encoder: Write | fn write_info
+    @sig
+        ensures final(self).log() == old(self).log().push(Tok::Info(info)),
+    @*/
+
+    /*@extract yrs/src/updates/encoder.rs | trait Encoder: Write | fn write_len
+    @sig
+        ensures final(self).log() == old(self).log().push(Tok::Len(len)),
+    @*/
+
+    /// `lib0::Write::write_var::<T: VarInt>` (supertrait `Write`; default body `num.write(self)` dropped)
+    fn write_var<T: VarInt>(&mut self, num: T)
+        ensures final(self).log() == old(self).log().push(Tok::Var(num.vx_val())),
+    ;
+}
+
+/*@extract yrs/src/block.rs | - | const BLOCK_GC_REF_NUMBER @*/
+/*@extract yrs/src/block.rs | - | const BLOCK_SKIP_REF_NUMBER @*/
+
+/// what `Block::encode_with_offset(offset)` appends
+pub open spec fn block_tokens(b: Block, offset: u32) -> Seq<Tok> {
+    match b {
+        Block::Item(x) => item_slice_toks(*x, offset, (x.len - 1) as u32),
+        Block::Skip(r) => seq![Tok::Info(10), Tok::Var(r.len - offset)],
+        Block::GC(r) => seq![Tok::Info(0), Tok::Len((r.len - offset) as u32)],
+    }
+}
+
+/// push form of the same
+pub open spec fn emit_block(l: Seq<Tok>, b: Block, offset: u32) -> Seq<Tok> {
+    match b {
+        Block::Item(x) => l + item_slice_toks(*x, offset, (x.len - 1) as u32),
+        Block::Skip(r) => l.push(Tok::Info(10)).push(Tok::Var(r.len - offset)),
+        Block::GC(r) => l.push(Tok::Info(0)).push(Tok::Len((r.len - offset) as u32)),
+    }
+}
+
+pub proof fn lemma_emit_block(l: Seq<Tok>, b: Block, offset: u32)
+    ensures
+        emit_block(l, b, offset) == l + block_tokens(b, offset),
+{
+    assert(emit_block(l, b, offset) =~= l + block_tokens(b, offset));
+}
+
+/// a block that can be written from `offset` on
+pub open spec fn block_encodable(b: Block, offset: u32) -> bool {
+    match b {
+        Block::Item(x) => x.len >= 1 && x.id.clock + x.len <= u32::MAX && offset < x.len && (offset == 0 ==> item_parent_known(*x)),
+        Block::Skip(r) => offset <= r.len,
+        Block::GC(r) => offset <= r.len,
+    }
+}
+
+impl Block {
+    /*@extract yrs/src/block.rs | impl Block | fn encode_with_offset | label=Block.encode_with_offset
+    @sig
+        requires
+            block_encodable(*self, offset),
+        ensures
+            final(encoder).log() == emit_block(old(encoder).log(), *self, offset),
+    @*/
+}
+
 impl Update {
     /*@extract yrs/src/update.rs | impl Update | fn state_vector | label=Update.state_vector
     @ret r
     @sig
         requires
-            upd_wf(self.blocks.clients@),
+            upd_ok(self.blocks.clients@),
         ensures
             forall|c: ClientID| sv_get(r@, c) == sv_upper(blocks_of(self.blocks.clients@, c)),
     @start
@@ -339,7 +491,7 @@ impl Update {
     @loop 1 iter=it
         invariant
             u == self.blocks.clients@,
-            upd_wf(u),
+            upd_ok(u),
             iter_of(it.snapshot@.remaining(), u),
             0 <= it.index@ <= it.snapshot@.remaining().len(),
             vx_seen =~= keys_upto(it.snapshot@.remaining(), it.index@),
@@ -351,16 +503,66 @@ impl Update {
             assert(u.contains_key(*client) && u[*client] == *blocks);
         }
     @loop 2 iter=it2
+        invariant_except_break
+            first_skip(s, 0) == first_skip(s, it2.index@ as int),
+            last_clock == (if it2.index@ == 0 { 0 } else { end_of(s[it2.index@ - 1]) }),
         invariant
             s == views(blocks@),
             list_ok(s),
             it2.seq().len() == blocks@.len(),
             forall|j: int| 0 <= j < blocks@.len() ==> *(#[trigger] it2.seq()[j]) == blocks@[j],
-            first_skip(s, 0) == first_skip(s, it2.index@ as int),
-            last_clock == (if it2.index@ == 0 { 0 } else { end_of(s[it2.index@ - 1]) }),
         ensures
             last_clock == (if first_skip(s, 0) == 0 { 0 } else { end_of(s[first_skip(s, 0) - 1]) }),
     @after 1 `stmt:if`
+        proof {
+            vx_seen = vx_seen.insert(*client);
+        }
+    @before 1 `stmt:expr sv`
+        proof {
+            assert(forall|c: ClientID| u.contains_key(c) ==> vx_seen.contains(c));
+        }
+    @*/
+}
+
+impl Update {
+    /*@extract yrs/src/update.rs | impl Update | fn state_vector_lower | label=Update.state_vector_lower
+    @ret r
+    @sig
+        requires
+            upd_ok(self.blocks.clients@),
+        ensures
+            forall|c: ClientID| sv_get(r@, c) == sv_lower(blocks_of(self.blocks.clients@, c)),
+    @start
+        let ghost u = self.blocks.clients@;
+        let ghost mut vx_seen = ISet::<ClientID>::empty();
+    @loop 1 iter=it
+        invariant
+            u == self.blocks.clients@,
+            upd_ok(u),
+            iter_of(it.snapshot@.remaining(), u),
+            0 <= it.index@ <= it.snapshot@.remaining().len(),
+            vx_seen =~= keys_upto(it.snapshot@.remaining(), it.index@),
+            forall|c: ClientID| sv_get(sv@, c) == (if vx_seen.contains(c) { sv_lower(blocks_of(u, c)) } else { 0 }),
+    @before 2 `stmt:for`
+        let ghost s = views(blocks@);
+        let ghost sv0 = sv@;
+        proof {
+            lemma_keys_upto_step(it.snapshot@.remaining(), u, it.index@);
+            assert(u.contains_key(*client) && u[*client] == *blocks);
+        }
+    @loop 2 iter=it2
+        invariant_except_break
+            first_non_skip(s, 0) == first_non_skip(s, it2.index@ as int),
+            sv@ == sv0,
+        invariant
+            s == views(blocks@),
+            list_ok(s),
+            sv_get(sv0, *client) == 0,
+            it2.seq().len() == blocks@.len(),
+            forall|j: int| 0 <= j < blocks@.len() ==> *(#[trigger] it2.seq()[j]) == blocks@[j],
+        ensures
+            forall|x: ClientID| sv_get(sv@, x) == (if x == *client { sv_lower(s) } else { sv_get(sv0, x) as int }),
+    @after 2 `stmt:for`
         proof {
             vx_seen = vx_seen.insert(*client);
         }
